@@ -65,3 +65,13 @@ mut("c03-special-set", "C03", "types.go", "	case '.', ' ', '\\'', '@', ';', '(',
 mut("c03-escapebyte-large", "C03", "types.go", "	b -= '~' + 1\n", "	b -= '~'\n", "\\DDD table index off by one for octets above 0x7e")
 mut("c03-isfqdn-parity", "C03", "defaults.go", "	return (len(s)-i)%2 != 0\n}", "	return (len(s)-i)%2 == 0\n}", "IsFqdn parity of trailing backslashes inverted")
 mut("c03-isdomainname-budget", "C03", "defaults.go", "	const lenmsg = maxDomainNameWireOctets - 1 // the root label takes the last octet", "	const lenmsg = maxDomainNameWireOctets", "IsDomainName accepts 256 octets again")
+
+# ---- C16
+mut("c16-a-copy-shares", "C16", "ztypes.go", "	return &A{rr.Hdr, cloneSlice(rr.A)}", "	return &A{rr.Hdr, rr.A}", "A.copy shares the address slice")
+mut("c16-unpack-a-aliases", "C16", "msg_helpers.go", "	return cloneSlice(msg[off : off+net.IPv4len]), off + net.IPv4len, nil", "	return msg[off : off+net.IPv4len : off+net.IPv4len], off + net.IPv4len, nil", "unpacked A address is a sub-slice of the message buffer")
+mut("c16-rawsig-canonicalises-original", "C16", "dnssec.go", "		r1 := r.copy()\n		h := r1.Header()", "		r1 := r\n		h := r1.Header()", "signature canonicalisation (TTL, lower-casing) applied to the caller's records")
+mut("c16-svcb-ipv4hint-unpack", "C16", "svcb.go", "	b = cloneSlice(b)\n	x := make([]net.IP, 0, len(b)/4)", "	x := make([]net.IP, 0, len(b)/4)", "ipv4hint addresses alias the message buffer")
+mut("c16-nsec-copy-shares", "C16", "ztypes.go", "	return &NSEC{rr.Hdr, rr.NextDomain, cloneSlice(rr.TypeBitMap)}", "	return &NSEC{rr.Hdr, rr.NextDomain, rr.TypeBitMap}", "NSEC.copy shares the type bitmap")
+mut("c16-svcb-sort-in-place", "C16", "msg_helpers.go", "	pairs = cloneSlice(pairs)\n	sort.Slice(pairs, func(i, j int) bool {\n		return pairs[i].Key() < pairs[j].Key()", "	sort.Slice(pairs, func(i, j int) bool {\n		return pairs[i].Key() < pairs[j].Key()", "packing SVCB sorts the caller's parameter slice in place")
+mut("c16-padding-unpack", "C16", "edns.go", "func (e *EDNS0_PADDING) unpack(b []byte) error { e.Padding = cloneSlice(b); return nil }", "func (e *EDNS0_PADDING) unpack(b []byte) error { e.Padding = b; return nil }", "EDNS0 padding aliases the message buffer")
+mut("c16-msg-copy-question", "C16", "msg.go", "	if len(dns.Question) > 0 {\n		// TODO(miek): Question is an immutable value, ok to do a shallow-copy\n		r1.Question = cloneSlice(dns.Question)\n	}", "	r1.Question = dns.Question", "Msg.CopyTo shares the question slice")
